@@ -64,7 +64,7 @@ REQUIRED_COUNTERS = [
 # the call-site sub-monitors (tomography / direct-ptychography helpers, partly private names) are additional observability:
 # if a helper disappears it is listed under hooks_missing in the evidence and the verdict rests on the estimators themselves
 
-UPS = [1, 2, 3, 4, 8, 16, 32, 64]
+UPS = [1, 2, 3, 4, 5, 7, 8, 16, 32, 64]
 SHAPES = ["even_sq", "odd_sq", "even_odd", "odd_even", "tall_even", "wide_odd"]
 SCLASSES = ["zero", "int", "int_edge", "int_far", "sub", "sub_far", "half"]
 BACKENDS = ["numpy", "torch"]
